@@ -63,6 +63,20 @@ def handle : List Sexp → Option String
       let a ← intArgs args
       let k ← n.toNat?
       some (match GenK.alphabetTest (a.take k) (a.drop k) with | .ok _ => "ok" | .error e => "err " ++ errName e)
+  | .atom "KCSET" :: .atom which :: args => do
+      -- KCSET inter|union|excl v1 v2 ... : operand k answers vk (0 = accepts, 1 = ValueConstraintError, 2 = TypeError)
+      let a ← intArgs args
+      let o : Int → Py.M Unit := fun k =>
+        match a[k.toNat]? with
+        | some 0 => .ok ()
+        | some 1 => .error (.lib "ValueConstraintError")
+        | _ => .error (.lib "TypeError")
+      let ks : Py.Tup := (List.range a.length).map Int.ofNat
+      let r := match which with
+        | "inter" => GenK.intersectionTest ks o
+        | "union" => GenK.unionTest ks o
+        | _ => GenK.exclusionTest ks o
+      some (match r with | .ok _ => "ok" | .error e => "err " ++ errName e)
   | .atom "KDECTAG" :: args => do
       let a ← intArgs args
       some (out (GenK.decodeTag a))
